@@ -304,6 +304,11 @@ class C16(Check):
                 if rng.random() < 0.25:
                     case["copy"] = rng.choice([1, 1, 2])
                     self.note("inspect_deep_copy")
+                if rng.random() < 0.03 and sum(len(j) for j in spec) <= 12 and all(
+                        len(ms) == 1 for job in spec for ms, _ in job) and all(spec):
+                    # (node colours come from operation.machine_id: the plot function is for non-flexible instances)
+                    case["plot"] = 1
+                    self.note("disjunctive_graph_plotted_before_inspection")
                 if rng.random() < 0.2:
                     case["route"] = rng.choice([1, 2])
                     self.note("assembled_from_public_building_blocks")
@@ -359,6 +364,20 @@ class C16(Check):
                         keep.append(getattr(graphs, name)(other))
                     except Exception:  # pylint: disable=broad-except
                         pass
+            if case.get("plot") and built[0] is not None:
+                # the disjunctive graph is DRAWN (the library's own plot function is given the graph object) and
+                # then inspected: looking at a graph does not change it
+                import matplotlib.pyplot as plt
+                from job_shop_lib.visualization import plot_disjunctive_graph
+
+                import warnings
+
+                try:
+                    with warnings.catch_warnings():
+                        warnings.simplefilter("ignore")      # "pygraphviz not installed, using spring layout"
+                        plot_disjunctive_graph(built[0])
+                finally:
+                    plt.close("all")
             if case.get("copy"):
                 # what a GraphUpdater / environment hands out from its first reset on: a deep copy
                 import copy as _copy
@@ -575,6 +594,8 @@ class C16(Check):
                     c["earlier"] = (c["earlier"] + [[0, 0, 0]] * total)[:total]
             return c
 
+        if case.get("plot"):
+            yield {k: v for k, v in case.items() if k != "plot"}
         if case.get("route"):
             yield {k: v for k, v in case.items() if k != "route"}
         if case.get("copy"):
